@@ -218,19 +218,13 @@ class Harness:
         return p.returncode, p.stdout.splitlines(), p.stderr
 
 
-def run_shadow_case(h, tree, env):
-    """run the tree on libmcount; entries libmcount rejected become HNone in the tree.
-    -> dict(tree, ops, obs, errno, nshow, crashed)"""
-    ops, owner = full(tree)
-    nshow = tree_depth(tree) + 2
-    rc, out, err = h.run(harness_lines(ops, owner), nshow, env)
-    crashed = rc != 0 or len(out) != len(ops)
+def parse_shadow(tree, ops, owner, out, nshow, env, crashed, err):
     obs, errno_ok = [], []
     for i, line in enumerate(out[:len(ops)]):
         left, _, right = line.partition(" | ")
         k = left.split()
         snap = right.split()
-        idx, words = int(snap[0]), snap[1:]
+        idx, words = int(snap[0]), snap[1:nshow + 1]
         u = "UNone"
         if k[0] == "E":
             if int(k[1]) != 0:
@@ -245,6 +239,34 @@ def run_shadow_case(h, tree, env):
     ops2, _ = full(tree)                     # with the observed hooks
     return {"tree": tree, "ops": ops2, "obs": obs, "errno": errno_ok, "nshow": nshow, "crashed": crashed,
             "stderr": err[-300:], "env": env or {}}
+
+
+def run_shadow_case(h, tree, env):
+    """run the tree on libmcount; entries libmcount rejected become HNone in the tree.
+    -> dict(tree, ops, obs, errno, nshow, crashed)"""
+    ops, owner = full(tree)
+    nshow = tree_depth(tree) + 2
+    rc, out, err = h.run(harness_lines(ops, owner), nshow, env)
+    crashed = rc != 0 or len(out) != len(ops)
+    return parse_shadow(tree, ops, owner, out, nshow, env, crashed, err)
+
+
+def run_shadow_batch(h, trees, env):
+    """several trees in one libmcount process (every tree ends with an empty shadow stack; `Z` clears the
+    slots).  If anything looks wrong the trees are re-run one by one."""
+    NS = 12
+    lines, spans = [], []
+    for t in trees:
+        ops, owner = full(t)
+        spans.append((len(lines), ops, owner))
+        lines += harness_lines(ops, owner) + ["Z"]
+    rc, out, err = h.run(lines, NS, env)
+    if rc != 0 or len(out) != len(lines) or any(not out[st + len(ops)].startswith("Z | 0 ") for st, ops, _ in spans):
+        return [run_shadow_case(h, t, env) for t in trees]
+    res = []
+    for t, (st, ops, owner) in zip(trees, spans):
+        res.append(parse_shadow(t, ops, owner, out[st:st + len(ops)], tree_depth(t) + 2, env, False, err))
+    return res
 
 
 def coq_shadow_case(c):
@@ -296,7 +318,7 @@ Local Open Scope Z_scope.
 """
 
 
-def evaluate(ctx, scases, xcases, name="cases"):
+def evaluate_chunk(ctx, scases, xcases, name):
     defs = "Local Open Scope nat_scope.\nDefinition scases : list shadow_case := [\n%s\n].\nLocal Open Scope Z_scope.\n" % ";\n".join(coq_shadow_case(c) for c in scases)
     defs += "Definition xcases : list xmm_case := [\n%s\n].\n" % ";\n".join(
         "{| xc_before := %s; xc_clobber := %s; xc_after := %s |}" % (coq_pairs(b), coq_pairs(c), coq_pairs(a))
@@ -310,6 +332,24 @@ def evaluate(ctx, scases, xcases, name="cases"):
     if res is None:
         return None
     return {k: coq.parse_nat_list(v) for k, v in res.items()}
+
+
+def evaluate(ctx, scases, xcases, name="cases", chunk=50):
+    """model and checker evaluated by vm_compute inside Coq; chunks run in parallel coqc processes"""
+    jobs = []
+    for k, j in enumerate(range(0, max(len(scases), 1), chunk)):
+        jobs.append((j, scases[j:j + chunk], xcases if k == 0 else []))
+    with concurrent.futures.ThreadPoolExecutor(max_workers=6) as ex:
+        rs = list(ex.map(lambda jb: evaluate_chunk(ctx, jb[1], jb[2], "%s_%d" % (name, jb[0])), jobs))
+    if any(r is None for r in rs):
+        return None
+    res = {"s_mismatch": [], "s_violations": [], "x_mismatch": [], "x_violations": []}
+    for (j, _, _), r in zip(jobs, rs):
+        res["s_mismatch"] += [j + i for i in r["s_mismatch"]]
+        res["s_violations"] += [j + i for i in r["s_violations"]]
+        res["x_mismatch"] += r["x_mismatch"]
+        res["x_violations"] += r["x_violations"]
+    return res
 
 
 # ================================================================ objdump monitor
@@ -400,9 +440,20 @@ def compile_prog(workdir, name, src, mode, opt):
     return exe
 
 
-def run_native(exe):
-    p = subprocess.run([exe], capture_output=True, timeout=60)
-    return p.returncode, p.stdout
+def run_native(exe, outfile):
+    env = dict(os.environ, VERIF_OUT=outfile)
+    p = subprocess.run([exe], capture_output=True, timeout=60, env=env)
+    return p.returncode, p.stdout, slurp(outfile)
+
+
+def slurp(path):
+    try:
+        with open(path, "rb") as f:
+            b = f.read()
+        os.unlink(path)
+        return b
+    except OSError:
+        return None
 
 
 def run_traced(objdir, exe, mode, opts, datadir, live=False):
@@ -412,7 +463,8 @@ def run_traced(objdir, exe, mode, opts, datadir, live=False):
     if not live:
         base += ["-d", datadir]
     cmd = base + G.MODES[mode][1] + opts + [exe]
-    p = subprocess.run(cmd, capture_output=True, timeout=90)
+    outfile = datadir + ".out"
+    p = subprocess.run(cmd, capture_output=True, timeout=90, env=dict(os.environ, VERIF_OUT=outfile))
     status = None
     if not live:
         q = subprocess.run([uft, "info", "--no-pager", "-d", datadir], capture_output=True, text=True, timeout=30)
@@ -421,23 +473,27 @@ def run_traced(objdir, exe, mode, opts, datadir, live=False):
             m2 = re.match(r"exited with code: (\d+)", m.group(1))
             status = int(m2.group(1)) if m2 else m.group(1).strip()
     shutil.rmtree(datadir, ignore_errors=True)
-    return p.returncode, p.stdout, p.stderr.decode(errors="replace"), status
+    return p.returncode, p.stdout, p.stderr.decode(errors="replace"), status, slurp(outfile)
+
+
+def digest_lines(b):
+    return b"\n".join(l for l in (b or b"").splitlines() if l.startswith(b"DIGEST "))
 
 
 def e2e_compare(nat, traced, live):
-    nrc, nout = nat
-    trc, tout, terr, status = traced
+    """the program's own report (private file) must be identical; its DIGEST lines on the shared stdout too
+    (the tracer may add its own messages there); exit status as recorded by uftrace = native"""
+    nrc, nout, nfile = nat
+    trc, tout, terr, status, tfile = traced
     problems = []
     if trc == 124:
         problems.append("traced run did not terminate")
-    if live:
-        got = b"\n".join(l for l in tout.splitlines() if l.startswith(b"DIGEST "))
-        want = b"\n".join(l for l in nout.splitlines() if l.startswith(b"DIGEST "))
-        if got != want:
-            problems.append("output of the traced program differs from the native run")
-    else:
-        if tout != nout:
-            problems.append("output of the traced program differs from the native run")
+    if tfile != nfile:
+        problems.append("the traced program's report differs from the native run (%r vs %r)"
+                        % ((tfile or b"")[-80:], (nfile or b"")[-80:]))
+    if digest_lines(tout) != digest_lines(nout):
+        problems.append("DIGEST lines on stdout differ from the native run")
+    if not live:
         if status != nrc:
             problems.append("exit status of the traced program is %r, native %r" % (status, nrc))
         if (trc != 0) != (nrc != 0) and trc != 124:
@@ -449,8 +505,8 @@ def e2e_plan(ctx):
     """list of (program params, [(mode, opt, optset, live)])"""
     rng = ctx.rng
     plan = []
-    nprog = ctx.n(5, 40)
-    per = ctx.n(9, 20)
+    nprog = ctx.n(12, 60)
+    per = ctx.n(12, 24)
     osets = list(option_sets(ctx.scratch))
     for pi in range(nprog):
         threads = 4 if pi % 3 == 1 else 1
@@ -491,8 +547,8 @@ def e2e(ctx, objdir):
     def one(job):
         pi, params, src, desc, mode, opt, oset, live = job
         exe = compile_prog(work, "p%d" % pi, src, mode, opt)
-        nat = run_native(exe)
         dd = os.path.join(work, "d.%d.%s%s.%s.%d" % (pi, mode, opt, oset, int(live)))
+        nat = run_native(exe, dd + ".nat")
         tr = run_traced(objdir, exe, mode, osets[oset], dd, live)
         return job, nat, tr
 
@@ -579,26 +635,32 @@ def run(ctx):
 
     # ---- (a) shadow-stack trees
     scases = []
-    n = ctx.n(140, 1500)
+    n = ctx.n(280, 3000)
+    groups = {}
     for i in range(n):
         shape = SHAPES[i % len(SHAPES)]
         tree = gen_tree(ctx.rng, shape, maxd=ctx.rng.choice([3, 5, 6]), budget=ctx.rng.choice([6, 12, 24]))
         env = {}
         if i % 5 == 4:
             env["UFTRACE_DEPTH"] = ctx.rng.choice([1, 2, 3])
-        c = run_shadow_case(h, tree, env)
-        scases.append(c)
-        tags = set(["shape=" + shape])
-        tree_tags(c["tree"], tags)
-        if env:
-            tags.add("depth-limit")
-        hooked = any(o[0] == "E" and o[1] != "N" for o in c["ops"])
-        ctx.case(key=("shadow", coq_tree(c["tree"]), tuple(sorted(env.items()))), nontrivial=hooked, tags=sorted(tags),
-                 sample={"shadow": {"tree": coq_tree(c["tree"])[:300], "ops": len(c["ops"])}}
-                 if len(ctx.samples) < 2 and hooked else None, size=tree_size(tree))
-        if c["crashed"]:
-            ctx.violation("libmcount crashed or stopped answering while driving a call tree (return-address hijack)",
-                          {"kind": "shadow", "tree": json_tree(tree), "env": env, "stderr": c["stderr"]}, True)
+        groups.setdefault(tuple(sorted(env.items())), []).append((shape, tree))
+    for envk, items in sorted(groups.items()):
+        env = dict(envk)
+        for j in range(0, len(items), 40):
+            chunk = items[j:j + 40]
+            for (shape, tree), c in zip(chunk, run_shadow_batch(h, [t for _, t in chunk], env)):
+                scases.append(c)
+                tags = set(["shape=" + shape])
+                tree_tags(c["tree"], tags)
+                if env:
+                    tags.add("depth-limit")
+                hooked = any(o[0] == "E" and o[1] != "N" for o in c["ops"])
+                ctx.case(key=("shadow", coq_tree(c["tree"]), envk), nontrivial=hooked, tags=sorted(tags),
+                         sample={"shadow": {"tree": coq_tree(c["tree"])[:300], "ops": len(c["ops"])}}
+                         if len(ctx.samples) < 2 and hooked else None, size=tree_size(tree))
+                if c["crashed"]:
+                    ctx.violation("libmcount crashed or stopped answering while driving a call tree (return-address hijack)",
+                                  {"kind": "shadow", "tree": json_tree(tree), "env": env, "stderr": c["stderr"]}, True)
     # ---- (b) xmm pair
     xcases = []
     for i in range(ctx.n(24, 200)):
@@ -609,11 +671,15 @@ def run(ctx):
         ctx.case(key=("xmm", tuple(before)), nontrivial=kind != "hi-zero", tags=["xmm:" + kind],
                  sample={"xmm": {"before0": ["%x" % w for w in before[0]], "after0": ["%x" % w for w in after[0]]}}
                  if i == 0 else None)
+    ctx.log("ran %d call trees and %d xmm cases on libmcount" % (len(scases), len(xcases)))
     res = evaluate(ctx, [c for c in scases if not c["crashed"]], xcases)
+    ctx.log("model evaluated in Coq:", res)
     verdict(ctx, [c for c in scases if not c["crashed"]], xcases, res)
     # ---- monitors
     objdump_monitor(ctx, objdir)
+    ctx.log("objdump monitor done")
     n_e2e = e2e(ctx, objdir)
+    ctx.log("end-to-end: %d traced/native pairs" % n_e2e)
     ctx.extra["e2e_runs"] = n_e2e
     ctx.extra["shadow_cases"] = len(scases)
     ctx.extra["xmm_cases"] = len(xcases)
@@ -679,7 +745,7 @@ def replay(ctx, obj):
         os.makedirs(work, exist_ok=True)
         src = obj.get("source") or make_prog(obj["params"])[0]
         exe = compile_prog(work, "replay", src, obj["mode"], obj["opt"])
-        nat = run_native(exe)
+        nat = run_native(exe, os.path.join(work, "nat.out"))
         tr = run_traced(objdir, exe, obj["mode"], option_sets(ctx.scratch)[obj["optset"]], os.path.join(work, "d"),
                         obj.get("live", False))
         problems = e2e_compare(nat, tr, obj.get("live", False))
